@@ -13,11 +13,13 @@ import (
 	"errors"
 	"flag"
 	"fmt"
+	"io"
 	"os"
 	"runtime"
 	"strings"
 	"sync"
 	"sync/atomic"
+	"syscall"
 	"time"
 
 	el "github.com/hashicorp/eventlogger"
@@ -31,15 +33,21 @@ type Op struct {
 	ID    int    `json:"id,omitempty"`
 	Flush bool   `json:"flush,omitempty"`
 	Done  bool   `json:"ctx_done,omitempty"` // the call is made with an already cancelled context (the model ignores the context)
-	D     int64  `json:"d,omitempty"`        // adv: clock advance in ns
+	Ctx   string `json:"ctx,omitempty"`      // live cancelled past-deadline custom cause ("" = Background)
+	// ev: Event.CreatedAt 0 zero time, 1 far ahead of the filter's clock, 2 far behind it (the filter must go by its own clock)
+	Created int `json:"created,omitempty"`
+	// ev: the payload is a typed nil *gp inside the interface (its GetID answers ""): no id
+	NilPayload bool  `json:"nil_payload,omitempty"`
+	D          int64 `json:"d,omitempty"` // adv: clock advance in ns
 }
 type Cfg struct {
-	Broker     bool  `json:"broker"`
-	Exp        int64 `json:"exp"`                   // Filter.Expiration in ns (0 = unset -> 10 s default)
-	CFailLen   int   `json:"cfail_len,omitempty"`   // ComposeFrom fails for groups of this size
-	CGateLen   int   `json:"cgate_len,omitempty"`   // ComposeFrom returns a Gateable payload for groups of this size
-	CGateFlush bool  `json:"cgate_flush,omitempty"` // ... and that Gateable composite reports FlushEvent() == true
-	SFail      int   `json:"sfail,omitempty"`       // the n-th Broker.Send fails
+	Broker     bool   `json:"broker"`
+	Exp        int64  `json:"exp"`                   // Filter.Expiration in ns (0 = unset -> 10 s default)
+	CFailLen   int    `json:"cfail_len,omitempty"`   // ComposeFrom fails for groups of this size
+	CGateLen   int    `json:"cgate_len,omitempty"`   // ComposeFrom returns a Gateable payload for groups of this size
+	ErrKind    string `json:"err_kind,omitempty"`    // the error VALUE ComposeFrom / Send fail with (see faultErrors); "" = a private error
+	CGateFlush bool   `json:"cgate_flush,omitempty"` // ... and that Gateable composite reports FlushEvent() == true
+	SFail      int    `json:"sfail,omitempty"`       // the n-th Broker.Send fails
 }
 type Case struct {
 	ID  int    `json:"id"`
@@ -50,6 +58,14 @@ type Case struct {
 	IDMap []int `json:"id_map,omitempty"`
 	// AllDone: every call of the history is made with an already cancelled context
 	AllDone bool `json:"all_ctx_done,omitempty"`
+	// AllCtx: every call is made with this kind of context
+	AllCtx string `json:"all_ctx,omitempty"`
+	// ValuePayload: the events carry the value-receiver payload type held by value
+	ValuePayload bool `json:"value_payload,omitempty"`
+	// Twin: a second filter shares the Sender (and clock); it is driven between the calls of the history
+	Twin bool `json:"twin,omitempty"`
+	// NowNil: Filter.NowFunc is left unset (time.Now); only for the concurrent-style (observation-only) cases
+	NowNil bool `json:"now_nil,omitempty"`
 	// concurrent cases: one op list per goroutine, Ops unused
 	Threads [][]Op `json:"threads,omitempty"`
 	Ticker  int64  `json:"ticker,omitempty"` // a goroutine advances the clock by this much between yields
@@ -77,15 +93,18 @@ type world struct {
 	sends        int
 	sentGateable bool
 	now          int64       // atomic
+	inputs       []inputEv   // every event handed to Process, with what it looked like then
 	kept         []keptSlice // every slice handed to ComposeFrom: the very slice (no copy) and what it held at that moment
+	nowNil       bool        // Filter.NowFunc left unset
 	sameType     bool        // reentry scenarios: the composite keeps the event type of the group, so it is routed into the same pipeline
 }
 
 var cur *world // the world of the case being executed (ComposeFrom may be called on a nil receiver)
 
 // the id values: plain tokens, ids with leading / trailing / inner white space (6..10: distinct ids that differ from "a" only by
-// white space), a very long id, a non-ASCII id, an id made of white space only (not empty: gated like any other id)
-var idName = []string{"", "a", "b", "c", "d", "e", " a", "a ", " a ", "a b", "\ta\n", strings.Repeat("x", 300), "ä-日本-🔥", " "}
+// white space), a very long id, a non-ASCII id, an id made of white space only (not empty: gated like any other id), and more look-alike
+// twins of "a": other case, a trailing NUL, "a" as a proper prefix
+var idName = []string{"", "a", "b", "c", "d", "e", " a", "a ", " a ", "a b", "\ta\n", strings.Repeat("x", 300), "ä-日本-🔥", " ", "A", "a\x00", "ab"}
 
 func idNum(s string) int {
 	for i, n := range idName {
@@ -102,8 +121,24 @@ type gp struct {
 	n     int
 }
 
-func (g *gp) GetID() string    { return g.id }
-func (g *gp) FlushEvent() bool { return g.flush }
+func (g *gp) GetID() string {
+	if g == nil {
+		return "" // a typed nil payload: no id
+	}
+	return g.id
+}
+func (g *gp) FlushEvent() bool { return g != nil && g.flush }
+
+// the same payload with value receivers, held by value in Event.Payload
+type gpv struct {
+	id    string
+	flush bool
+	n     int
+}
+
+func (g gpv) GetID() string                                                  { return g.id }
+func (g gpv) FlushEvent() bool                                               { return g.flush }
+func (g gpv) ComposeFrom(evs []*el.Event) (el.EventType, interface{}, error) { return composeFrom(evs) }
 
 type composite struct{ evs []pair }
 
@@ -130,7 +165,9 @@ func readPairs(evs []*el.Event) []pair {
 	for _, x := range evs {
 		if x == nil {
 			arg = append(arg, pair{96, 0})
-		} else if p, ok := x.Payload.(*gp); ok {
+		} else if p, ok := x.Payload.(*gp); ok && p != nil {
+			arg = append(arg, pair{idNum(p.id), p.n})
+		} else if p, ok := x.Payload.(gpv); ok {
 			arg = append(arg, pair{idNum(p.id), p.n})
 		} else {
 			arg = append(arg, pair{98, 0}) // something that was never a gated event
@@ -139,10 +176,28 @@ func readPairs(evs []*el.Event) []pair {
 	return arg
 }
 
-// mutated: does some slice handed to ComposeFrom earlier no longer hold the events it held then?
+type inputEv struct {
+	ev      *el.Event
+	payload interface{}
+	created time.Time
+}
+
+func (w *world) input(ev *el.Event) {
+	w.mu.Lock()
+	w.inputs = append(w.inputs, inputEv{ev, ev.Payload, ev.CreatedAt})
+	w.mu.Unlock()
+}
+
+// mutated: does some slice handed to ComposeFrom earlier no longer hold the events it held then, or was an event handed to
+// Process altered (type, payload, timestamp, formatted bytes)?
 func (w *world) mutated() bool {
 	w.mu.Lock()
 	defer w.mu.Unlock()
+	for _, in := range w.inputs {
+		if in.ev.Type != "t" || in.ev.Payload != in.payload || !in.ev.CreatedAt.Equal(in.created) || len(in.ev.Formatted) != 0 {
+			return true
+		}
+	}
 	for _, k := range w.kept {
 		now := readPairs(k.raw)
 		for i := range now {
@@ -154,6 +209,37 @@ func (w *world) mutated() bool {
 	return false
 }
 
+type hErr struct{ s string }
+
+func (e *hErr) Error() string {
+	if e == nil {
+		return "typed nil error"
+	}
+	return e.s
+}
+
+type timeoutErr struct{}
+
+func (timeoutErr) Error() string   { return "harness: timed out" }
+func (timeoutErr) Timeout() bool   { return true }
+func (timeoutErr) Temporary() bool { return true }
+func (timeoutErr) Is(t error) bool { return t == context.DeadlineExceeded }
+
+// the error VALUES ComposeFrom / Sender.Send fail with; whatever the value the filter must report an error and give the group up
+var faultErrors = map[string]error{
+	"": &hErr{"fault"}, "eof": io.EOF, "wrap:eof": fmt.Errorf("harness: %w", io.EOF), "canceled": context.Canceled,
+	"wrap:deadline": fmt.Errorf("harness: %w", context.DeadlineExceeded), "patherror:enospc": &os.PathError{Op: "send", Path: "/h", Err: syscall.ENOSPC},
+	"custom-timeout": timeoutErr{}, "join": errors.Join(io.ErrClosedPipe, &hErr{"second"}), "typednil": (*hErr)(nil), "invalid-parameter": el.ErrInvalidParameter,
+}
+var faultErrNames = []string{"", "eof", "wrap:eof", "canceled", "wrap:deadline", "patherror:enospc", "custom-timeout", "join", "typednil", "invalid-parameter"}
+
+func (w *world) fault() error {
+	if e, ok := faultErrors[w.cfg.ErrKind]; ok {
+		return e
+	}
+	return faultErrors[""]
+}
+
 func composeFrom(evs []*el.Event) (el.EventType, interface{}, error) {
 	w := cur
 	arg := readPairs(evs)
@@ -162,7 +248,7 @@ func composeFrom(evs []*el.Event) (el.EventType, interface{}, error) {
 	w.kept = append(w.kept, keptSlice{evs, arg})
 	w.mu.Unlock()
 	if w.cfg.CFailLen != 0 && len(arg) == w.cfg.CFailLen {
-		return "", nil, errors.New("compose failed")
+		return "", nil, w.fault()
 	}
 	if w.sameType && len(evs) > 0 {
 		if w.cfg.CGateLen != 0 && len(arg) == w.cfg.CGateLen {
@@ -200,7 +286,7 @@ func (s *sender) Send(ctx context.Context, t el.EventType, p interface{}) (el.St
 	}
 	w.sent = append(w.sent, evs)
 	if w.cfg.SFail != 0 && w.sends == w.cfg.SFail {
-		return el.Status{}, errors.New("send failed")
+		return el.Status{}, w.fault()
 	}
 	return el.Status{}, nil
 }
@@ -225,6 +311,9 @@ type Obs struct {
 
 func newFilter(w *world) *gated.Filter {
 	f := &gated.Filter{Expiration: time.Duration(w.cfg.Exp), NowFunc: func() time.Time { return time.Unix(0, atomic.LoadInt64(&w.now)) }}
+	if w.nowNil {
+		f.NowFunc = nil
+	}
 	if w.cfg.Broker {
 		f.Broker = &sender{w}
 	}
@@ -320,11 +409,60 @@ func execCase(c Case) (calls []Op, nums []int, obs []Obs, panicked interface{}, 
 	}
 }
 
+type ownCtx struct {
+	context.Context
+	done chan struct{}
+	err  error
+}
+
+func (c *ownCtx) Done() <-chan struct{} { return c.done }
+func (c *ownCtx) Err() error            { return c.err }
+
+// the contexts a caller may hand to Process / FlushAll / Close; the filter only passes it on to the Sender
+func makeCtx(kind string) (context.Context, context.CancelFunc) {
+	switch kind {
+	case "live":
+		return context.WithCancel(context.Background())
+	case "cancelled":
+		ctx, cancel := context.WithCancel(context.Background())
+		cancel()
+		return ctx, cancel
+	case "past-deadline":
+		return context.WithDeadline(context.Background(), time.Now().Add(-time.Hour))
+	case "custom":
+		done := make(chan struct{})
+		close(done)
+		return &ownCtx{Context: context.Background(), done: done, err: &hErr{"ctx gone"}}, func() {}
+	case "cause":
+		ctx, cancel := context.WithCancelCause(context.Background())
+		cancel(io.EOF)
+		child, c2 := context.WithCancel(ctx)
+		return child, c2
+	}
+	return context.Background(), func() {}
+}
+
+var ctxKinds = []string{"", "live", "cancelled", "past-deadline", "custom", "cause"}
+
+// twinStep drives the second filter that shares the Sender: its own ids, its own events (numbers 9000+), now and then a FlushAll
+func twinStep(f2 *gated.Filter, w *world, n int) {
+	ctx := context.Background()
+	ev := &el.Event{Type: "t", Payload: &gp{id: []string{"a", "b"}[n%2], flush: n%3 == 0, n: 9000 + n}}
+	w.input(ev)
+	_, _ = f2.Process(ctx, ev)
+	if n%5 == 0 {
+		_ = f2.FlushAll(ctx)
+	}
+}
+
 func execCaseInner(c Case, at *int32) (calls []Op, nums []int, obs []Obs, panicked interface{}) {
 	w := &world{cfg: c.Cfg, now: 1000}
 	cur = w
 	f := newFilter(w)
-	ctx := context.Background()
+	var f2 *gated.Filter
+	if c.Twin {
+		f2 = newFilter(w)
+	}
 	defer func() {
 		if r := recover(); r != nil {
 			panicked = r
@@ -338,6 +476,9 @@ func execCaseInner(c Case, at *int32) (calls []Op, nums []int, obs []Obs, panick
 		}
 		n++
 		atomic.StoreInt32(at, int32(n-1))
+		if c.Twin {
+			twinStep(f2, w, n) // outside the observation window of the call below
+		}
 		w.mu.Lock()
 		c0, s0 := len(w.composeArgs), len(w.sent)
 		w.sentGateable = false
@@ -346,19 +487,38 @@ func execCaseInner(c Case, at *int32) (calls []Op, nums []int, obs []Obs, panick
 		if op.K == "ev" && c.IDMap != nil && op.ID < len(c.IDMap) {
 			op.ID = c.IDMap[op.ID]
 		}
-		ctx := ctx
-		if op.Done || c.AllDone {
-			dctx, cancel := context.WithCancel(ctx)
-			cancel()
-			ctx = dctx
+		kind := op.Ctx
+		if kind == "" {
+			kind = c.AllCtx
+		}
+		if kind == "" && (op.Done || c.AllDone) {
+			kind = "cancelled"
+		}
+		ctx, cancel := makeCtx(kind)
+		if op.K == "ev" && op.NilPayload {
+			op.ID = 0
 		}
 		switch op.K {
 		case "ev":
 			ev := &el.Event{Type: "t", Payload: &gp{id: idName[op.ID], flush: op.Flush, n: n}}
+			if c.ValuePayload {
+				ev.Payload = gpv{id: idName[op.ID], flush: op.Flush, n: n}
+			}
+			if op.NilPayload {
+				ev.Payload = (*gp)(nil)
+			}
+			switch op.Created {
+			case 1:
+				ev.CreatedAt = time.Unix(0, atomic.LoadInt64(&w.now)).Add(1000 * time.Hour)
+			case 2:
+				ev.CreatedAt = time.Unix(0, atomic.LoadInt64(&w.now)).Add(-1000 * time.Hour)
+			}
+			w.input(ev)
 			out, err := f.Process(ctx, ev)
 			o.Res, o.Comp = classify(ev, out, err, false, n)
 		case "plain":
 			ev := &el.Event{Type: "t", Payload: plain{n}}
+			w.input(ev)
 			out, err := f.Process(ctx, ev)
 			o.Res, o.Comp = classify(ev, out, err, true, n)
 		case "flushall", "close":
@@ -380,6 +540,7 @@ func execCaseInner(c Case, at *int32) (calls []Op, nums []int, obs []Obs, panick
 		o.Sent = append([][]pair(nil), w.sent[s0:]...)
 		o.SentGateable = w.sentGateable
 		w.mu.Unlock()
+		cancel()
 		o.Gated, o.IndexOK = snapshot(f)
 		o.Mutated = w.mutated()
 		calls = append(calls, op)
@@ -408,7 +569,7 @@ type CObs struct {
 }
 
 func execConc(c Case) (o CObs, panicked interface{}) {
-	w := &world{cfg: c.Cfg, now: 1000}
+	w := &world{cfg: c.Cfg, now: 1000, nowNil: c.NowNil}
 	cur = w
 	f := newFilter(w)
 	ctx := context.Background()
@@ -483,10 +644,11 @@ func execConc(c Case) (o CObs, panicked interface{}) {
 // given a moment; then the Send is released.  The filter holds its mutex across the Send, so the second call can only run
 // afterwards and every group is composed and sent exactly once whatever the second call is.
 type Blocked struct {
-	First   string `json:"first"`   // process flushall close
-	Second  string `json:"second"`  // process process-flush flushall close
-	Groups  int    `json:"groups"`  // open groups (ids 1..Groups) before the first call
-	Expired bool   `json:"expired"` // the clock is advanced past their expiry before the first call
+	First   string `json:"first"`           // process flushall close
+	Second  string `json:"second"`          // process process-flush flushall close
+	Groups  int    `json:"groups"`          // open groups (ids 1..Groups) before the first call
+	Expired bool   `json:"expired"`         // the clock is advanced past their expiry before the first call
+	Third   string `json:"third,omitempty"` // a third party calling in as well: process flushall
 }
 
 type blockSender struct {
@@ -534,7 +696,7 @@ func execBlocked(c Case) (o CObs, panicked interface{}) {
 			var err error
 			switch kind {
 			case "process":
-				process(sp.Groups+1+n/2000, false, n) // a new id: 1st call Groups+1, 2nd call Groups+2
+				process(sp.Groups+n/1000-1, false, n) // a new id: 1st call Groups+1, 2nd call Groups+2, 3rd call Groups+3
 				return
 			case "process-flush":
 				process(1, true, n)
@@ -565,6 +727,12 @@ func execBlocked(c Case) (o CObs, panicked interface{}) {
 	case <-done1: // the first call sent nothing: nothing to overlap with
 	}
 	go func() { defer close(done2); call(sp.Second, 3001)() }()
+	done3 := make(chan struct{})
+	if sp.Third != "" {
+		go func() { defer close(done3); call(sp.Third, 4001)() }()
+	} else {
+		close(done3)
+	}
 	select {
 	case <-done2:
 	case <-time.After(30 * time.Millisecond):
@@ -572,6 +740,7 @@ func execBlocked(c Case) (o CObs, panicked interface{}) {
 	close(bs.release)
 	<-done1
 	<-done2
+	<-done3
 	err := f.FlushAll(ctx)
 	o.FinalRes = 4
 	if err != nil {
@@ -596,7 +765,11 @@ func genBlocked(e *emitter) {
 					if first == "process" && !expired {
 						continue // no sweep, no Send to park
 					}
-					e.emitConc(Case{Gen: "blocked-send", Cfg: Cfg{Broker: true, Exp: 10}, Blocked: &Blocked{first, second, groups, expired}})
+					e.emitConc(Case{Gen: "blocked-send", Cfg: Cfg{Broker: true, Exp: 10}, Blocked: &Blocked{First: first, Second: second, Groups: groups, Expired: expired}})
+					if groups == 2 {
+						third := map[string]string{"process": "flushall", "process-flush": "process", "flushall": "process", "close": "process"}[second]
+						e.emitConc(Case{Gen: "blocked-send", Cfg: Cfg{Broker: true, Exp: 10}, Blocked: &Blocked{First: first, Second: second, Groups: groups, Expired: expired, Third: third}})
+					}
 				}
 			}
 		}
@@ -1072,6 +1245,69 @@ func genBFSv(e *emitter, cfg Cfg, ids, maxDepth, budget int, sym bool, idMap []i
 	return len(seen), exhaustive
 }
 
+// genFaults: a fault (ComposeFrom fails / returns a Gateable payload for exactly one group, the p-th Send fails) on the oldest, a
+// middle or the youngest of 3..4 open groups, met by FlushAll, Close or the expiry sweep of a Process, each error class in turn,
+// followed by a retry (FlushAll / Close / Process again) and a final FlushAll: the faulty group is given up, every other group
+// is still emitted exactly once.  Also every kind of context on every call of a few fixed histories.
+func genFaults(e *emitter) {
+	k := 0
+	for _, groups := range []int{3, 4} {
+		for p := 1; p <= groups; p++ {
+			for _, fault := range []string{"cfail", "cgate", "cgate-flush", "sfail"} {
+				for _, trigger := range []string{"flushall", "close", "expire"} {
+					for _, retry := range []string{"flushall", "close", "process"} {
+						for _, broker := range []bool{true, false} {
+							if !broker && (fault == "sfail" || trigger != "expire") {
+								continue
+							}
+							cfg := Cfg{Broker: broker, Exp: 10, ErrKind: faultErrNames[k%len(faultErrNames)]}
+							k++
+							var ops []Op
+							for g := 1; g <= groups; g++ {
+								ops = append(ops, Op{K: "ev", ID: g})
+								if g == p && fault != "sfail" {
+									ops = append(ops, Op{K: "ev", ID: g}) // the only group of two events
+								}
+							}
+							switch fault {
+							case "cfail":
+								cfg.CFailLen = 2
+							case "cgate":
+								cfg.CGateLen = 2
+							case "cgate-flush":
+								cfg.CGateLen, cfg.CGateFlush = 2, true
+							default:
+								cfg.SFail = p
+							}
+							if trigger == "expire" {
+								ops = append(ops, Op{K: "adv", D: 11}, Op{K: "ev", ID: 5})
+							} else {
+								ops = append(ops, Op{K: trigger})
+							}
+							switch retry {
+							case "process":
+								ops = append(ops, Op{K: "ev", ID: 5}, Op{K: "ev", ID: 1})
+							default:
+								ops = append(ops, Op{K: retry})
+							}
+							ops = append(ops, Op{K: "flushall"}, Op{K: "close"})
+							e.emit(Case{Gen: "faults", Cfg: cfg, Ops: ops})
+						}
+					}
+				}
+			}
+		}
+	}
+	for _, ck := range ctxKinds[1:] {
+		for _, broker := range []bool{true, false} {
+			for _, vp := range []bool{false, true} {
+				base := []Op{{K: "ev", ID: 1}, {K: "ev", ID: 2}, {K: "ev", ID: 1, Flush: true}, {K: "adv", D: 11}, {K: "ev", ID: 3}, {K: "ev", ID: 1}, {K: "flushall"}, {K: "ev", ID: 2}, {K: "close"}, {K: "plain"}}
+				e.emit(Case{Gen: "contexts", Cfg: Cfg{Broker: broker, Exp: 10}, Ops: base, AllCtx: ck, ValuePayload: vp})
+			}
+		}
+	}
+}
+
 func maxID(h []Op) int {
 	m := 0
 	for _, o := range h {
@@ -1127,6 +1363,19 @@ func genRandom(e *emitter, r *hc.Rand, n, maxLen, ids int) {
 		if r.Chance(1, 3) {
 			doneP = 1 + r.Intn(3) // of 6
 		}
+		if r.Chance(1, 4) {
+			idMap = []int{0, 1, 14, 15, 16, 6}
+		}
+		if cfg.CFailLen != 0 || cfg.SFail != 0 {
+			cfg.ErrKind = faultErrNames[r.Intn(len(faultErrNames))]
+		}
+		valuePayload, twin := r.Chance(1, 5), r.Chance(1, 5) && cfg.SFail == 0
+		randCtx := func() string {
+			if r.Chance(doneP, 6) {
+				return ctxKinds[1+r.Intn(len(ctxKinds)-1)]
+			}
+			return ""
+		}
 		var ops []Op
 		for len(ops) < ln {
 			switch k := r.Intn(20); {
@@ -1135,7 +1384,7 @@ func genRandom(e *emitter, r *hc.Rand, n, maxLen, ids int) {
 				if r.Chance(1, 25) {
 					id = 0
 				}
-				ops = append(ops, Op{K: "ev", ID: id, Flush: r.Chance(flushP, 10), Done: r.Chance(doneP, 6)})
+				ops = append(ops, Op{K: "ev", ID: id, Flush: r.Chance(flushP, 10), Ctx: randCtx(), Created: []int{0, 0, 1, 2}[r.Intn(4)], NilPayload: !valuePayload && r.Chance(1, 40)})
 			case k < 12:
 				ops = append(ops, Op{K: "plain"})
 			case k < 17:
@@ -1145,12 +1394,12 @@ func genRandom(e *emitter, r *hc.Rand, n, maxLen, ids int) {
 				}
 				ops = append(ops, Op{K: "adv", D: d})
 			case k < 19:
-				ops = append(ops, Op{K: "flushall", Done: r.Chance(doneP, 6)})
+				ops = append(ops, Op{K: "flushall", Ctx: randCtx()})
 			default:
-				ops = append(ops, Op{K: "close", Done: r.Chance(doneP, 6)})
+				ops = append(ops, Op{K: "close", Ctx: randCtx()})
 			}
 		}
-		e.emit(Case{Gen: "random", Cfg: cfg, Ops: ops, IDMap: idMap})
+		e.emit(Case{Gen: "random", Cfg: cfg, Ops: ops, IDMap: idMap, ValuePayload: valuePayload, Twin: twin})
 	}
 }
 
@@ -1160,6 +1409,11 @@ func genConc(e *emitter, r *hc.Rand, n int) {
 		c := Case{Gen: "conc", Cfg: cfg}
 		if r.Chance(2, 3) {
 			c.Ticker = []int64{1, 100, 400, 1001}[r.Intn(4)]
+		}
+		if r.Chance(1, 4) {
+			// NowFunc left unset (time.Now) with the default Expiration or a long one: nothing expires within the case
+			c.NowNil, c.Ticker = true, 0
+			c.Cfg.Exp = []int64{0, int64(time.Hour)}[r.Intn(2)]
 		}
 		nt := 2 + r.Intn(4)
 		nids := 1 + r.Intn(3)
@@ -1319,11 +1573,16 @@ func main() {
 					if d > 5 {
 						d = 5
 					}
-					for _, m := range [][]int{{0, 6, 1, 7}, {0, 13, 11, 12}, {0, 8, 10, 9}} {
+					for _, m := range [][]int{{0, 6, 1, 7}, {0, 13, 11, 12}, {0, 8, 10, 9}, {0, 1, 14, 16}, {0, 15, 1, 14}} {
 						s, _ = genBFSv(e, cfg, *bfsIDs, d-1, *bfsBudget, true, m, false)
 						states += s
 					}
 					s, _ = genBFSv(e, cfg, *bfsIDs, d, *bfsBudget, true, nil, true)
+					states += s
+					// Expiration left unset (10 s default): the clock advances of the alphabet are then default-1 / default / default+1
+					dcfg := cfg
+					dcfg.Exp = 0
+					s, _ = genBFS(e, dcfg, *bfsIDs, d-1, *bfsBudget, true)
 					states += s
 				}
 				if *bfsSym && *bfsNoSymDepth > 0 {
@@ -1344,6 +1603,8 @@ func main() {
 			genConc(e, r.Fork(), *nConc)
 		case "blocked":
 			genBlocked(e)
+		case "faults":
+			genFaults(e)
 		case "":
 		default:
 			fmt.Fprintf(os.Stderr, "unknown mode %s\n", m)
